@@ -412,8 +412,11 @@ MANIFEST_ENTRY = {
              'structural facts about multilayer_stack_rt (Snell from ambient, degrees->radians, argument order, exit medium = '
              'last layer, polarisation dispatch, index/thickness columns). MODELLED AND COMPARED (1e-9): the whole '
              'multilayer_stack_rt pipeline incl. complex Snell angles, for stacks of 1..8 layers, oblique incidence, both '
-             'polarisations, lossless and absorbing. CORRESPONDENCE ONLY: batched (1-D/N-D) = per-element loop; R + T <= 1 for '
-             'absorbing interior layers (partial: see note).'),
+             'polarisations, lossless and absorbing. (6) R + T <= 1 for absorbing layers is PROVED in full (the design listed it as '
+             'stretch): with the complex sin/cos themselves, d/dk Re(E conj H) = Im(a)|H|^2 + Im(b)|E|^2 >= 0 inside a layer, so every '
+             'layer with Im n^2 >= 0, thickness >= 0 and cos(theta) from Snell\'s law is passive, passive matrices are closed under '
+             'products (any depth), and between real media |r|^2 + (n_e cos th_e/n_0 cos th_0)|t|^2 <= 1, both polarisations. '
+             'CORRESPONDENCE ONLY: batched (1-D/N-D) = per-element loop.'),
     'note': ('Trusted: Lean kernel + standard axioms; the ast->Lean translator for the arithmetic subset; NumPy matmul / '
              'broadcasting / complex arcsin, sin, cos; IEEE rounding (no theorem speaks about it). cos/sin of the angles and of beta, '
              'and -i, are abstract parameters with the laws c^2 + s^2 = 1, mI^2 = -1; non-vacuity examples instantiate them.'),
